@@ -189,8 +189,8 @@ static void pubfile_case(const KSI_Policy *policy, const char *pname, int form, 
 }
 
 /* ------------------------------------------------------------------ key-based policy */
-enum { K_ABSENT = 0, K_ENDS_BEFORE, K_ENDS_AT, K_CONTAINS, K_STARTS_AT, K_STARTS_AFTER, K_WRONG_KEY, K_BAD_SIGNATURE, K_NKIND };
-static const char *KNAME[K_NKIND] = {"cert-absent", "ends-before", "ends-exactly-at", "contains", "starts-exactly-at", "starts-after", "wrong-key", "altered-pki-signature"};
+enum { K_ABSENT = 0, K_ENDS_BEFORE, K_ENDS_AT, K_CONTAINS, K_STARTS_AT, K_STARTS_AFTER, K_WRONG_KEY, K_BAD_SIGNATURE, K_STARTS_2106, K_ENDS_2106, K_NKIND };
+static const char *KNAME[K_NKIND] = {"cert-absent", "ends-before", "ends-exactly-at", "contains", "starts-exactly-at", "starts-after", "wrong-key", "altered-pki-signature", "starts-after-2^32", "ends-after-2^32"};
 
 static void key_case(const KSI_Policy *policy, const char *pname, int form, int broken, int kkind, int src) {
 	KSI_CTX *ctx;
@@ -216,6 +216,9 @@ static void key_case(const KSI_Policy *policy, const char *pname, int form, int 
 		case K_ENDS_AT: na = (int64_t)FX_T0; break;
 		case K_STARTS_AT: nb = (int64_t)FX_T0; break;
 		case K_STARTS_AFTER: nb = (int64_t)FX_T0 + 1; break;
+		/* validity bounds beyond 2^32 seconds (year 2106 and later): a window that starts only then / a window that lasts until then */
+		case K_STARTS_2106: nb = 4294967296LL + 1000; na = 4294967296LL + 2000000000LL; break;   /* reduced modulo 2^32 the window would contain the aggregation time */
+		case K_ENDS_2106: na = 4294967296LL + 500; break;
 		default: break;
 	}
 	/* certificate with the chosen validity window; for "wrong key" the listed certificate carries another key
@@ -255,7 +258,7 @@ static void key_case(const KSI_Policy *policy, const char *pname, int form, int 
 	else if (!file_usable) e.cls = X_INCONCLUSIVE;
 	else switch (kkind) {
 		case K_ABSENT: e.cls = X_INCONCLUSIVE; break;
-		case K_ENDS_BEFORE: case K_STARTS_AFTER: e.cls = X_FAIL; e.code = KSI_VER_ERR_KEY_3; break;
+		case K_ENDS_BEFORE: case K_STARTS_AFTER: case K_STARTS_2106: e.cls = X_FAIL; e.code = KSI_VER_ERR_KEY_3; break;
 		case K_WRONG_KEY: case K_BAD_SIGNATURE: e.cls = X_FAIL; e.code = KSI_VER_ERR_KEY_2; break;
 		default: e.cls = X_OK; break;                                /* window is inclusive at both ends */
 	}
